@@ -126,6 +126,64 @@ def small_curve_records(tag, quick, rng):
   return recs
 
 
+def whole_curve_records(tag, quick, rng):
+  """Cofactor curves: every operation on points of the whole curve group (outside <G>, points of order two)."""
+  c = smallec.make(tag)
+  p, a, b, gx, gy, q, h = smallec.CURVES[tag]
+  rc = refec.RefCurve(p, a, b, (gx, gy), q)
+  pts = [None] + [(x, y) for x in range(p) for y in range(p) if (y * y - x * x * x - a * x - b) % p == 0]
+  assert len(pts) == q * h, (tag, len(pts))
+  T = tag + 'w'
+  N = len(pts)
+  recs = []
+  pairs = list(itertools.product(range(N), repeat=2))
+  if quick:
+    pairs = rng.sample(pairs, 500) + [(i, i) for i in range(N)] + [(i, pts.index(rc.neg(pts[i]))) for i in range(N)]
+  for i, j in pairs:
+    P, Q = pts[i], pts[j]
+    a_ = {'p': enc(P), 'q': enc(Q)}
+    recs.append(call(R('%s-add-%d-%d' % (T, i, j), 'add', a_), lambda: c.Add(lib(P), lib(Q)), lambda r: {'r': enc(r)}))
+    recs.append(call(R('%s-sub-%d-%d' % (T, i, j), 'subtract', a_), lambda: c.Subtract(lib(P), lib(Q)), lambda r: {'r': enc(r)}))
+    recs.append(call(R('%s-addjac-%d-%d' % (T, i, j), 'addjac', a_),
+                     lambda: c.AddJacobian(to_jac(P, p, rng), to_jac(Q, p, rng)), lambda r: {'r': enc(from_jac(r, p))}))
+  order = q * h
+  for i in range(N):
+    P = pts[i]
+    a_ = {'p': enc(P)}
+    recs.append(call(R('%s-dbl-%d' % (T, i), 'double', a_), lambda: c.Double(lib(P)), lambda r: {'r': enc(r)}))
+    recs.append(call(R('%s-neg-%d' % (T, i), 'negate', a_), lambda: c.Negate(lib(P)), lambda r: {'r': enc(r)}))
+    recs.append(call(R('%s-dbljac-%d' % (T, i), 'doublejac', a_), lambda: c.DoubleJacobian(to_jac(P, p, rng)),
+                     lambda r: {'r': enc(from_jac(r, p))}))
+    ks = sorted(set([-order, -q, -2, -1, 0, 1, 2, q - 1, q, q + 1, 2 * q, order - 1, order, order + 1] + [rng.randrange(-order, 2 * order) for _ in range(3 if quick else 30)]))
+    for k in ks:
+      a_ = {'p': enc(P), 'k': k}
+      recs.append(call(R('%s-mul-%d-%d' % (T, i, k), 'mul', a_), lambda: c.Multiply(lib(P), k), lambda r: {'r': enc(r)}))
+      recs.append(call(R('%s-mula-%d-%d' % (T, i, k), 'mulaffine', a_), lambda: c.MultiplyAffine(lib(P), k), lambda r: {'r': enc(r)}))
+  ord2 = [P for P in pts if P is not None and P[1] == 0]
+  for bi in range(4 if quick else 16):
+    Pb = rng.choice(ord2) if bi == 0 and ord2 else pts[rng.randrange(1, N)]
+    classes = {'inf': None, 'same': Pb, 'opp': rc.neg(Pb), 'g1': pts[rng.randrange(1, N)], 'o2': ord2[0] if ord2 else pts[1], 'dbl': rc.add(Pb, Pb)}
+    names = sorted(classes)
+    lists = [l for n in (1, 2, 3) for l in itertools.product(names, repeat=n)]
+    if quick:
+      lists = [l for l in lists if len(l) <= 1] + rng.sample([l for l in lists if len(l) > 1], 40)
+    for l in lists:
+      qs = [classes[x] for x in l]
+      a_ = {'p': enc(Pb), 'qs': [enc(x) for x in qs], 'classes': list(l)}
+      sid = '%s-b%d-%s' % (T, bi, '.'.join(l))
+      recs.append(call(R(sid + '-badd', 'batchadd', a_), lambda: c.BatchAdd(lib(Pb), [lib(x) for x in qs]), lambda r: {'rs': [enc(x) for x in r]}))
+      recs.append(call(R(sid + '-basx', 'batchaddsubx', a_), lambda: c.BatchAddSubtractX(lib(Pb), [lib(x) for x in qs]),
+                       lambda r: {'sums': [xenc(x) for x in r[0]], 'diffs': [xenc(x) for x in r[1]]}))
+      recs.append(call(R(sid + '-bdbl', 'batchdouble', {'ps': [enc(x) for x in qs]}), lambda: c.BatchDouble([lib(x) for x in qs]),
+                       lambda r: {'rs': [enc(x) for x in r]}))
+      recs.append(call(R(sid + '-bjac', 'batchjac', {'ps': [enc(x) for x in qs]}),
+                       lambda: c.BatchJacobianToAffine([to_jac(x, p, rng) for x in qs]), lambda r: {'rs': [enc(x) for x in r]}))
+  for i in ([1, 2] if quick else range(1, N, 5)):
+    recs.append(call(R('%s-pseq-%d' % (T, i), 'pointseq', {'p': enc(pts[i]), 'n': order + 2}),
+                     lambda: c.PointSequence(lib(pts[i]), order + 2), lambda r: {'rs': [enc(x) for x in r]}))
+  return recs
+
+
 NAMED_SANITY = None
 
 
@@ -193,9 +251,13 @@ def run(ctx):
   for t in tags:
     r = tlc.expect_holds('MC_Ec', 'MC_Ec_%s.cfg' % t, require_actions=('StepAdd', 'StepDouble', 'StepNeg'))
     ctx.note_mc(r, 'EcGroup/MC_Ec_%s: group axioms, isomorphism to Z_q, scalar multiplication, ECDSA relation on the whole group' % t)
+  for t in smallec.COFACTOR:
+    r = tlc.expect_holds('MC_Ec', 'MC_Ec_%s_all.cfg' % t, require_actions=('StepAddAny', 'StepDouble', 'StepNeg'))
+    ctx.note_mc(r, 'EcGroup/MC_Ec_%s_all: group axioms on the whole curve group of a cofactor curve, order q*h, subgroup test = membership in <G>' % t)
   allrecs = {}
+  tags = tags + smallec.COFACTOR
   for t in tags:
-    recs = small_curve_records(t, ctx.quick, ctx.rng)
+    recs = whole_curve_records(t, ctx.quick, ctx.rng) if t in smallec.COFACTOR else small_curve_records(t, ctx.quick, ctx.rng)
     if ctx.only_sid:
       recs = [x for x in recs if x['sid'] == ctx.only_sid]
     allrecs[t] = recs
